@@ -146,6 +146,12 @@ pub fn pick_amount(rng: &mut Rng, cap: u64) -> u64 {
     if cap == 0 {
         return rng.range(1, 1000);
     }
+    // rarely the two ends of the domain: nothing at all, and everything a u64 can say
+    match rng.below(60) {
+        0 => return 0,
+        1 => return u64::MAX,
+        _ => {}
+    }
     match rng.below(10) {
         0 => 1,
         1 => rng.range(1, 100.min(cap)),
@@ -618,6 +624,51 @@ pub fn act_bankruptcy(sim: &Sim, ctx: &mut Ctx) -> Option<Tx> {
         "bankruptcy",
         ix::handle_bankruptcy(&b.keys, signer, ma, rm),
     ))
+}
+
+/// Client-side batching: two to four ordinary operations of one user on one account in a single
+/// transaction (atomic: a failing later instruction rolls the earlier ones back).  Risk-account
+/// lists cover every bank the batch touches.
+pub fn act_batch(sim: &mut Sim, ctx: &mut Ctx) -> Option<Tx> {
+    let (ui, gi, ma) = user_and_account(ctx)?;
+    let u = ctx.world.users[ui].clone();
+    let n = ctx.rng.range(2, 4) as usize;
+    let mut banks: Vec<BankInfo> = Vec::new();
+    for _ in 0..n {
+        banks.push(pick_bank(ctx, gi)?);
+    }
+    // the account list every risk-checked instruction of the batch gets: current positions plus
+    // every bank the batch may open a position in
+    let mut keys: Vec<Pubkey> = model::account_of(&sim.store, &ma)
+        .map(|a| active_balances(&a).iter().map(|b| b.bank_pk).collect())
+        .unwrap_or_default();
+    for b in &banks {
+        if !keys.contains(&b.keys.bank) {
+            keys.push(b.keys.bank);
+        }
+    }
+    keys.sort_by(|a, b| b.cmp(a));
+    let mut rm = Vec::new();
+    for k in &keys {
+        rm.push(ix::ro(*k));
+        if let Some(bank) = model::bank_of(&sim.store, k) {
+            rm.extend(world::oracle_metas_for(&bank));
+        }
+    }
+    sim.stats.fault("client_batched_transaction");
+    let mut ixs = Vec::new();
+    for b in banks {
+        let ta = *u.tokens.get(&b.keys.mint)?;
+        let vault = token_balance(&sim.store, &b.keys.liquidity_vault);
+        let bal = token_balance(&sim.store, &ta);
+        ixs.push(match ctx.rng.below(5) {
+            0 | 1 => ix::deposit(&b.keys, ma, u.authority, ta, pick_amount(ctx.rng, bal / 8 + 1), None),
+            2 => ix::borrow(&b.keys, ma, u.authority, ta, pick_amount(ctx.rng, vault / 8 + 1), rm.clone()),
+            3 => ix::withdraw(&b.keys, ma, u.authority, ta, pick_amount(ctx.rng, vault / 8 + 1), if ctx.rng.chance(1, 4) { Some(true) } else { None }, rm.clone()),
+            _ => ix::repay(&b.keys, ma, u.authority, ta, pick_amount(ctx.rng, bal / 8 + 1), if ctx.rng.chance(1, 4) { Some(true) } else { None }),
+        });
+    }
+    Some(Tx::many("user", ixs))
 }
 
 /// Slot-exhaustion drill (worlds with more banks than an account has slots): one user opens a
@@ -1170,7 +1221,13 @@ pub fn step_mkt(sim: &mut Sim, ctx: &mut Ctx) {
             }
         }
         1 => act_withdraw(sim, ctx),
-        2 => act_borrow(sim, ctx),
+        2 => {
+            if ctx.rng.chance(1, 5) {
+                act_batch(sim, ctx)
+            } else {
+                act_borrow(sim, ctx)
+            }
+        }
         3 => act_repay(sim, ctx),
         4 => act_close_balance(sim, ctx),
         5 => act_accrue(sim, ctx),
